@@ -64,8 +64,10 @@ pub enum Kind {
     ShapeReaderShx,
     Complete,
     ShapeReaderNoShx,
+    /// the complete reader (shapes + attribute rows) over a shape reader that has no index
+    CompleteNoShx,
 }
-const KINDS: [Kind; 3] = [Kind::ShapeReaderShx, Kind::Complete, Kind::ShapeReaderNoShx];
+const KINDS: [Kind; 4] = [Kind::ShapeReaderShx, Kind::Complete, Kind::ShapeReaderNoShx, Kind::CompleteNoShx];
 
 #[derive(Clone, Debug)]
 pub struct Case {
@@ -286,8 +288,8 @@ pub fn observe(case: &Case, fx: &Fixture) -> Vec<Ans> {
             };
             drive(&mut r, &case.ops, &fx.recs, &mut out);
         }
-        Kind::Complete => {
-            let sr = ShapeReader::with_shx(src(&fx.shp), src(&fx.shx)).expect("open");
+        Kind::Complete | Kind::CompleteNoShx => {
+            let sr = if case.kind == Kind::Complete { ShapeReader::with_shx(src(&fx.shp), src(&fx.shx)).expect("open") } else { ShapeReader::new(src(&fx.shp)).expect("open") };
             let dr = shapefile::dbase::Reader::new(Dev::quiet(fx.dbf.clone())).expect("open dbf");
             let mut r = Reader::new(sr, dr);
             let pair = |x: Result<(Shape, shapefile::dbase::Record), shapefile::Error>, recs: &[MRead]| -> Result<usize, String> {
@@ -325,7 +327,7 @@ pub fn observe(case: &Case, fx: &Fixture) -> Vec<Ans> {
 /// RefReader: the set P of positions a new iteration may start from.
 pub fn judge(case: &Case, answers: &[Ans]) -> Vec<(String, String)> {
     let mut p: Vec<usize> = vec![0];
-    let indexed = case.kind != Kind::ShapeReaderNoShx;
+    let indexed = matches!(case.kind, Kind::ShapeReaderShx | Kind::Complete);
     let mut prev_kind = "fresh";
     let kind = format!("{:?}", case.kind);
     for (i, (op, ans)) in case.ops.iter().zip(answers).enumerate() {
@@ -450,6 +452,7 @@ fn enabled(h: &Hist, progs: &[u8]) -> Vec<u8> {
         Kind::ShapeReaderShx => (0..13).chain(p).collect(),
         Kind::Complete => [0, 1, 2, 3, 8, 9, 10, 11, 12, 13].into_iter().chain(p).collect(),
         Kind::ShapeReaderNoShx => [0, 1, 2, 3, 4, 8, 12].into_iter().chain(p).collect(),
+        Kind::CompleteNoShx => [0, 1, 2, 3, 8, 12, 13].into_iter().chain(p).collect(),
     }
 }
 
@@ -505,10 +508,10 @@ pub fn check(tier: Tier) -> i32 {
     }
     let fxs = Arc::new(fxs);
     let mut inits = vec![];
-    for k in 0..3u8 {
+    for k in 0..4u8 {
         for e in 0..4u8 {
             // the gapped / permuted layout needs the index; the far-offset layout is driven through ShapeReader with index
-            if (e == 2 && k == 2) || (e == 3 && k != 0) {
+            if (e == 2 && k >= 2) || (e == 3 && k != 0) {
                 continue;
             }
             for t in 0..types.len() as u8 {
@@ -568,7 +571,7 @@ pub fn check(tier: Tier) -> i32 {
             tier,
             level: "model_checking",
             engine: "E1 stateright BFS over reader call histories on the real ShapeReader / Reader; oracle = set-valued cursor model (RefReader)",
-            rule: "every sequence up to the depth bound over {Iter(0), Iter(1), Iter(2), Iter(all), Nth(0..3), Seek(0..3), Count} and 14 programs that drive a new iterator through the std adaptors an iterator type may override (nth(k) then next; next, nth(k), next; nth, nth; skip(k); next then skip; step_by(2); last; next then last; count; nth(usize::MAX) fresh and after a next), judged against the same program over the plain sequence of remaining records; base alphabet: (ShapeReader with index, 13 actions), {Iter*, Seek*, Count, ReadAll} (complete Reader, 10 actions), {Iter*, Nth(0), Seek(0), Count} (ShapeReader without index: the last three must answer MissingIndexFile) x files of 3 records with pairwise different sizes, with equal sizes, and (readers with an index) stored out of order with fillers between them behind sources returning at most 3 bytes per read, and (ShapeReader with index) at byte offsets beyond 2^31 and 3*2^30 on a sparse source, x types; non-trivial = >= 2 operations",
+            rule: "every sequence up to the depth bound over {Iter(0), Iter(1), Iter(2), Iter(all), Nth(0..3), Seek(0..3), Count} and 14 programs that drive a new iterator through the std adaptors an iterator type may override (nth(k) then next; next, nth(k), next; nth, nth; skip(k); next then skip; step_by(2); last; next then last; count; nth(usize::MAX) fresh and after a next), judged against the same program over the plain sequence of remaining records; base alphabet: (ShapeReader with index, 13 actions), {Iter*, Seek*, Count, ReadAll} (complete Reader, 10 actions; the same over a shape reader without index, where seek and count must answer MissingIndexFile), {Iter*, Nth(0), Seek(0), Count} (ShapeReader without index: the last three must answer MissingIndexFile) x files of 3 records with pairwise different sizes, with equal sizes, and (readers with an index) stored out of order with fillers between them behind sources returning at most 3 bytes per read, and (ShapeReader with index) at byte offsets beyond 2^31 and 3*2^30 on a sparse source, x types; non-trivial = >= 2 operations",
             bounds: json!({"depth": tier.pick("4 (all 14 adaptor programs)", "5 (5 adaptor programs) and 4 (all 14)"), "records": N, "types": types.iter().map(|t| t.name()).collect::<Vec<_>>()}),
             exhaustive: true,
             assumptions: vec!["the model is non-deterministic after a partial iteration exactly as the statement is: a further iteration may continue or restart".into()],
